@@ -207,4 +207,258 @@ theorem C04_all_missing_nan (f : Vec → Vec → XR) (obs fcst : Vec)
     (h : ∀ p ∈ obs.zip fcst, p.1.isNan = true ∨ p.2.isNan = true) :
     computeFromObsFcst f obs fcst = nan := C05.C05_no_pairs_nan f obs fcst h
 
+/-! ### deletion invariance at the dataset level -/
+
+/-- insert `x` before position `p` -/
+def insertAt {α : Type} (p : Nat) (x : α) (l : List α) : List α := l.take p ++ x :: l.drop p
+
+/-- insert one case at position p: xs[j] goes into column j -/
+def insertRow (p : Nat) (xs : List XR) (cols : List Vec) : List Vec :=
+  List.zipWith (fun c x => insertAt p x c) cols xs
+
+theorem insertAt_length {α : Type} (p : Nat) (x : α) (l : List α) :
+    (insertAt p x l).length = l.length + 1 := by
+  simp only [insertAt, List.length_append, List.length_cons, List.length_take, List.length_drop]
+  omega
+
+theorem insertAt_getElem? {α : Type} (p : Nat) (x : α) (l : List α) (hp : p ≤ l.length) (k : Nat) :
+    (insertAt p x l)[k]? = if k < p then l[k]? else if k = p then some x else l[k - 1]? := by
+  unfold insertAt
+  have hlen : (l.take p).length = p := by rw [List.length_take]; omega
+  split
+  · rename_i hk
+    rw [List.getElem?_append_left (by omega), List.getElem?_take_of_lt hk]
+  · rename_i hk
+    rw [List.getElem?_append_right (by omega), hlen]
+    split
+    · rename_i hkp
+      subst hkp
+      simp
+    · obtain ⟨m, hm⟩ : ∃ m, k - p = m + 1 := ⟨k - p - 1, by omega⟩
+      rw [hm, List.getElem?_cons_succ, List.getElem?_drop]
+      congr 1
+      omega
+
+theorem compress_append (m1 m2 : List Bool) (v1 v2 : Vec) (h : m1.length = v1.length) :
+    compress (m1 ++ m2) (v1 ++ v2) = compress m1 v1 ++ compress m2 v2 := by
+  unfold compress
+  rw [List.zip_append h, List.filterMap_append]
+
+/-- a position whose mask is false can be deleted from mask and column together -/
+theorem compress_insertAt (p : Nat) (x : XR) (m : List Bool) (v : Vec) (h : m.length = v.length) :
+    compress (insertAt p false m) (insertAt p x v) = compress m v := by
+  have h1 : (m.take p).length = (v.take p).length := by
+    rw [List.length_take, List.length_take, h]
+  unfold insertAt
+  rw [compress_append _ _ _ _ h1, compress_cons]
+  simp only [Bool.false_eq_true, if_false, List.nil_append]
+  rw [← compress_append _ _ _ _ h1, List.take_append_drop, List.take_append_drop]
+
+theorem insertRow_length (p : Nat) (xs : List XR) (cols : List Vec) (hxs : xs.length = cols.length) :
+    (insertRow p xs cols).length = cols.length := by
+  simp only [insertRow, List.length_zipWith, hxs, Nat.min_self]
+
+theorem insertRow_col_length (p n : Nat) (xs : List XR) (cols : List Vec)
+    (hlen : ∀ c ∈ cols, c.length = n) : ∀ c ∈ insertRow p xs cols, c.length = n + 1 := by
+  induction cols generalizing xs with
+  | nil => intro c hc; simp [insertRow] at hc
+  | cons c cs ih =>
+    cases xs with
+    | nil => intro c hc; simp [insertRow] at hc
+    | cons x xs' =>
+      intro c' hc'
+      simp only [insertRow, List.zipWith_cons_cons, List.mem_cons] at hc'
+      rcases hc' with hc' | hc'
+      · rw [hc', insertAt_length, hlen c (List.mem_cons_self ..)]
+      · exact ih xs' (fun d hd => hlen d (List.mem_cons_of_mem _ hd)) c' hc'
+
+/-- a per-column test that does not see the inserted case gives the same answer on all columns -/
+theorem all_insertRow (p n : Nat) (g g' : Vec → Bool)
+    (hg : ∀ (c : Vec) (x : XR), c.length = n → g' (insertAt p x c) = g c)
+    (cols : List Vec) (xs : List XR) (hxs : xs.length = cols.length)
+    (hlen : ∀ c ∈ cols, c.length = n) :
+    (insertRow p xs cols).all g' = cols.all g := by
+  induction cols generalizing xs with
+  | nil => simp [insertRow]
+  | cons c cs ih =>
+    cases xs with
+    | nil => simp at hxs
+    | cons x xs' =>
+      simp only [insertRow, List.zipWith_cons_cons, List.all_cons]
+      rw [hg c x (hlen c (List.mem_cons_self ..))]
+      congr 1
+      exact ih xs' (by simpa using hxs) (fun d hd => hlen d (List.mem_cons_of_mem _ hd))
+
+/-- the inserted case is invalid as soon as one of its values is missing -/
+theorem all_insertRow_bad (p n : Nat) (hp : p ≤ n) (cols : List Vec) (xs : List XR)
+    (hxs : xs.length = cols.length) (hlen : ∀ c ∈ cols, c.length = n)
+    (hbad : ∃ x ∈ xs, isValid x = false) :
+    (insertRow p xs cols).all (fun c => isValid (c.getD p nan)) = false := by
+  induction cols generalizing xs with
+  | nil =>
+    obtain ⟨x, hx, _⟩ := hbad
+    have : xs = [] := List.eq_nil_of_length_eq_zero (by simpa using hxs)
+    subst this
+    cases hx
+  | cons c cs ih =>
+    cases xs with
+    | nil => simp at hxs
+    | cons x xs' =>
+      simp only [insertRow, List.zipWith_cons_cons, List.all_cons]
+      have hget : (insertAt p x c).getD p nan = x := by
+        rw [List.getD_eq_getElem?_getD,
+          insertAt_getElem? p x c (by rw [hlen c (List.mem_cons_self ..)]; exact hp)]
+        simp
+      rw [hget]
+      obtain ⟨y, hy, hyb⟩ := hbad
+      rcases List.mem_cons.mp hy with hy | hy
+      · subst hy; rw [hyb]; rfl
+      · have := ih xs' (by simpa using hxs) (fun d hd => hlen d (List.mem_cons_of_mem _ hd))
+          ⟨y, hy, hyb⟩
+        simp only [insertRow] at this
+        rw [this, Bool.and_false]
+
+theorem validMask_length (cols : List Vec) : (validMask cols).length = (cols.headD []).length := by
+  simp [validMask]
+
+/-- inserting an invalid case inserts one `false` into the validity mask -/
+theorem validMask_insertRow (n p : Nat) (cols : List Vec) (xs : List XR)
+    (hne : cols ≠ []) (hlen : ∀ c ∈ cols, c.length = n) (hp : p ≤ n) (hxs : xs.length = cols.length)
+    (hbad : ∃ x ∈ xs, isValid x = false) :
+    validMask (insertRow p xs cols) = insertAt p false (validMask cols) := by
+  have hhead : (cols.headD []).length = n := by
+    cases cols with
+    | nil => exact absurd rfl hne
+    | cons c cs => exact hlen c (List.mem_cons_self ..)
+  have hhead' : ((insertRow p xs cols).headD []).length = n + 1 := by
+    cases cols with
+    | nil => exact absurd rfl hne
+    | cons c cs =>
+      cases xs with
+      | nil => simp at hxs
+      | cons x xs' =>
+        simp only [insertRow, List.zipWith_cons_cons, List.headD_cons, insertAt_length]
+        rw [hlen c (List.mem_cons_self ..)]
+  have hml : (validMask cols).length = n := by rw [validMask_length, hhead]
+  apply List.ext_getElem?
+  intro k
+  rcases Nat.lt_or_ge k (n + 1) with hk | hk
+  · rw [validMask_get _ k (by omega), insertAt_getElem? p false _ (by omega) k]
+    split
+    · rename_i hkp
+      rw [validMask_get _ k (by omega)]
+      congr 1
+      apply all_insertRow p n _ _ _ cols xs hxs hlen
+      intro c x hc
+      rw [List.getD_eq_getElem?_getD, List.getD_eq_getElem?_getD,
+        insertAt_getElem? p x c (by omega) k, if_pos hkp]
+    · split
+      · rename_i hkp
+        subst hkp
+        rw [all_insertRow_bad k n hp cols xs hxs hlen hbad]
+      · rw [validMask_get _ (k - 1) (by omega)]
+        congr 1
+        apply all_insertRow p n _ _ _ cols xs hxs hlen
+        intro c x hc
+        rw [List.getD_eq_getElem?_getD, List.getD_eq_getElem?_getD,
+          insertAt_getElem? p x c (by omega) k, if_neg (by omega), if_neg (by omega)]
+  · rw [List.getElem?_eq_none (by rw [validMask_length, hhead']; exact hk),
+      List.getElem?_eq_none (by rw [insertAt_length, hml]; exact hk)]
+
+/-- compression by the new mask of the new columns = compression by the old mask of the old ones -/
+theorem map_compress_insertRow (p n : Nat) (m : List Bool) (hm : m.length = n)
+    (cols : List Vec) (xs : List XR) (hxs : xs.length = cols.length)
+    (hlen : ∀ c ∈ cols, c.length = n) :
+    (insertRow p xs cols).map (compress (insertAt p false m)) = cols.map (compress m) := by
+  induction cols generalizing xs with
+  | nil => simp [insertRow]
+  | cons c cs ih =>
+    cases xs with
+    | nil => simp at hxs
+    | cons x xs' =>
+      simp only [insertRow, List.zipWith_cons_cons, List.map_cons]
+      rw [compress_insertAt p x m c (by rw [hm, hlen c (List.mem_cons_self ..)])]
+      congr 1
+      exact ih xs' (by simpa using hxs) (fun d hd => hlen d (List.mem_cons_of_mem _ hd))
+
+/-- **Deletion invariance at the dataset level.**  Inserting, at any position, a case in which at
+least one requested column holds a missing value (NaN or ±inf; the other columns are arbitrary)
+does not change what `get_scores` hands on, for any number of columns and any slicing axis other
+than the whole-array one. -/
+theorem C04_delete_invariance (sel : Sel) (hsel : sel ≠ .all) (nf n p : Nat) (cols : List Vec) (xs : List XR)
+    (hne : cols ≠ []) (hlen : ∀ c ∈ cols, c.length = n) (hp : p ≤ n) (hxs : xs.length = cols.length)
+    (hbad : ∃ x ∈ xs, isValid x = false) :
+    finish sel nf (insertRow p xs cols) = finish sel nf cols := by
+  have hml : (validMask cols).length = n := by
+    rw [validMask_length]
+    cases cols with
+    | nil => exact absurd rfl hne
+    | cons c cs => exact hlen c (List.mem_cons_self ..)
+  have hout : (insertRow p xs cols).map (compress (validMask (insertRow p xs cols)))
+      = cols.map (compress (validMask cols)) := by
+    rw [validMask_insertRow n p cols xs hne hlen hp hxs hbad]
+    exact map_compress_insertRow p n _ hml cols xs hxs hlen
+  unfold finish
+  cases sel with
+  | all => exact absurd rfl hsel
+  | none => simp only [hout]
+  | time i => simp only [hout]
+  | times idx => simp only [hout]
+  | leads idx => simp only [hout]
+  | loc i => simp only [hout]
+
+/-- insert several cases one after another (each position refers to the dataset as it is then) -/
+def insertRows : List (Nat × List XR) → List Vec → List Vec
+  | [], cols => cols
+  | r :: rest, cols => insertRows rest (insertRow r.1 r.2 cols)
+
+/-- every inserted case fits (position in range, one value per column) and holds a missing value;
+`n` is the number of cases before the first insertion -/
+def BadRows (ncols : Nat) : Nat → List (Nat × List XR) → Prop
+  | _, [] => True
+  | n, r :: rest =>
+    r.1 ≤ n ∧ r.2.length = ncols ∧ (∃ x ∈ r.2, isValid x = false) ∧ BadRows ncols (n + 1) rest
+
+/-- any number of cases with a missing value, inserted anywhere, leave the result unchanged -/
+theorem C04_delete_invariance_many (sel : Sel) (hsel : sel ≠ .all) (nf n : Nat) (cols : List Vec)
+    (rows : List (Nat × List XR)) (hne : cols ≠ []) (hlen : ∀ c ∈ cols, c.length = n)
+    (hrows : BadRows cols.length n rows) :
+    finish sel nf (insertRows rows cols) = finish sel nf cols := by
+  induction rows generalizing n cols with
+  | nil => rfl
+  | cons r rest ih =>
+    obtain ⟨hp, hxs, hbad, hrest⟩ := hrows
+    have hl : (insertRow r.1 r.2 cols).length = cols.length := insertRow_length r.1 r.2 cols hxs
+    have hne' : insertRow r.1 r.2 cols ≠ [] := by
+      intro h
+      rw [h] at hl
+      exact hne (List.eq_nil_of_length_eq_zero hl.symm)
+    show finish sel nf (insertRows rest (insertRow r.1 r.2 cols)) = finish sel nf cols
+    rw [ih (n + 1) (insertRow r.1 r.2 cols) hne' (insertRow_col_length r.1 n r.2 cols hlen)
+      (by rw [hl]; exact hrest)]
+    exact C04_delete_invariance sel hsel nf n r.1 cols r.2 hne hlen hp hxs hbad
+
+/-- non-vacuity: three cases × two columns; a case with `+inf` in the first column (and a perfectly
+good 9 in the second) is inserted at position 1; both datasets compress to the same two cases
+(case 1 of the original is dropped as well: NaN in the second column) -/
+example :
+    insertRow 1 [pinf, fin 9] [[fin 1, fin 2, fin 3], [fin 4, nan, fin 6]]
+        = [[fin 1, pinf, fin 2, fin 3], [fin 4, fin 9, nan, fin 6]]
+    ∧ finish .none 2 (insertRow 1 [pinf, fin 9] [[fin 1, fin 2, fin 3], [fin 4, nan, fin 6]])
+        = [[fin 1, fin 3], [fin 4, fin 6]]
+    ∧ finish .none 2 [[fin 1, fin 2, fin 3], [fin 4, nan, fin 6]] = [[fin 1, fin 3], [fin 4, fin 6]] := by
+  decide +kernel
+
+/-- the hypotheses of the several-cases corollary are satisfiable, and its conclusion is what the
+model computes: insertions at the front, in the middle and at the very end -/
+example :
+    BadRows 2 3 [(1, [pinf, fin 9]), (4, [fin 7, nan]), (0, [ninf, ninf])]
+    ∧ insertRows [(1, [pinf, fin 9]), (4, [fin 7, nan]), (0, [ninf, ninf])]
+        [[fin 1, fin 2, fin 3], [fin 4, nan, fin 6]]
+        = [[ninf, fin 1, pinf, fin 2, fin 3, fin 7], [ninf, fin 4, fin 9, nan, fin 6, nan]]
+    ∧ finish (.time 0) 2 (insertRows [(1, [pinf, fin 9]), (4, [fin 7, nan]), (0, [ninf, ninf])]
+        [[fin 1, fin 2, fin 3], [fin 4, nan, fin 6]]) = [[fin 1, fin 3], [fin 4, fin 6]] := by
+  refine ⟨⟨by decide, rfl, ⟨pinf, by decide +kernel, rfl⟩, by decide, rfl, ⟨nan, by decide +kernel, rfl⟩,
+    by decide, rfl, ⟨ninf, by decide +kernel, rfl⟩, trivial⟩, by decide +kernel, by decide +kernel⟩
+
 end VerifModel.C04
